@@ -124,6 +124,11 @@ class C18(Check):
                 if stats is not None:
                     stats.count("rejected_by_front_end")
                 return None
+            if "AddressSanitizer: stack-overflow" in str(multi["died"].get("stderr_tail", "")):
+                # unbounded recursion in the generated program: not a matter of shot isolation
+                if stats is not None:
+                    stats.count("deep_recursion_out_of_scope")
+                return None
             return {"why": "interpreter died in the multi-shot arrangement", "source": src, **multi["died"]}
         if len(multi) != n:
             return {"why": f"{len(multi)} shot records for {n} shots", "source": src}
@@ -132,6 +137,8 @@ class C18(Check):
             if one is None:
                 return None
             if isinstance(one, dict):
+                if "AddressSanitizer: stack-overflow" in str(one.get("died", {}).get("stderr_tail", "")):
+                    return None
                 return {"why": "interpreter died in a fresh run", "source": src, **one.get("died", {})}
             if cli and k < n - 1:
                 one[0]["qasm"] = multi[k]["qasm"] = None  # the CLI keeps no QASM log for these shots
